@@ -4,7 +4,7 @@ SPEC = {
     "runners": [{
         "kind": "wqcases", "module": "CorrC19", "harness": "wqscript", "prop": "C19",
         "corr": "Run/CorrC19.v + Run/CorrWQ.v (model of the work queue incl. its shutdown path vs /repo/workqueue, child processes)",
-        "rule": "each case = one child process running a scripted workload (n equal-priority items finished in order, optionally an error result and a subscriber) with Stop or Break injected at one position (every position is used), then the remaining Enqueue calls plus one more, then an adaptive drain; the child's exit status and stderr classify crashes (panic message + frames of the panicking goroutine), the steps it completed are replayed in Coq on Model/WQ.v. Black-box clauses on every case: no work function starts twice, work enqueued after Stop/Break never starts, and an Enqueue issued after Stop/Break has returned when its step ends. In addition 200 burst trials (thorough 1000) in child processes: one goroutine makes n in 1..6 Enqueue calls of never-returning work and immediately calls Stop, with W >= n workers (the regime where the code is deterministic and outside K5); evaluated by a Go-side monitor: every call returned, every accepted item started exactly once, a later Enqueue returns and never runs. 50 shutdown-sequence children (Stop-Break, Break-Stop, Stop-Stop, Break-Break, Stop-Break-Stop on an idle queue, with all workers executing, and with the worker channel full and 1-2 items waiting; the gated work is never released, so nothing finishes after the shutdown): every call must return (hang detector), nothing may start afterwards, a later Enqueue returns. distinct = by (W, L, stimuli); every case is non-trivial (it contains a Stop or Break).",
+        "rule": "each case = one child process running a scripted workload (n equal-priority items finished in order, optionally an error result and a subscriber) with Stop or Break injected at one position (every position is used), then the remaining Enqueue calls plus one more, then an adaptive drain; the child's exit status and stderr classify crashes (panic message + frames of the panicking goroutine), the steps it completed are replayed in Coq on Model/WQ.v. Black-box clauses on every case: no work function starts twice, work enqueued after Stop/Break never starts, and an Enqueue issued after Stop/Break has returned when its step ends. In addition 200 burst trials (thorough 1000) in child processes: one goroutine makes n in 1..6 Enqueue calls of never-returning work and immediately calls Stop, with W >= n workers (the regime where the code is deterministic and outside K5); evaluated by a Go-side monitor: every call returned, every accepted item started exactly once, a later Enqueue returns and never runs. 50 shutdown-sequence children (Stop-Break, Break-Stop, Stop-Stop, Break-Break, Stop-Break-Stop on an idle queue, with all workers executing, and with the worker channel full and 1-2 items waiting; the gated work is never released, so nothing finishes after the shutdown): every call must return (hang detector), nothing may start afterwards, a later Enqueue returns. Burst children also run 200 trials (thorough 1000) in which Stop or Break is the very first call on a fresh queue (no yield after NewQueue), followed by one Enqueue that must return, never run and not panic. distinct = by (W, L, stimuli); every case is non-trivial (it contains a Stop or Break).",
     }],
     "trusted": ["channels, select, sync.Map, atomics, context are modelled by contract (one step each)",
                 "quiescence detector; exit status / stderr of the child processes"],
